@@ -296,6 +296,9 @@ impl Prop for C02Prop {
     fn known(&self, v: &Viol) -> Option<&'static str> {
         known_for_build(v)
     }
+    fn sut_crash_is_violation(&self) -> bool {
+        false
+    }
     fn case_timeout(&self) -> (u64, bool) {
         (90, false)
     }
